@@ -263,6 +263,27 @@ def arrayDType : List PyVal → Option DType
     let t ← scalarDType x
     xs.foldlM arrayStep t
 
+/-- One step of numpy's dtype inference over a list *mixing numeric classes*: booleans, integers and floats
+promote (`bool < int < float`), a null makes the array an object array; text next to numbers is outside the
+model (numpy would turn the numbers into text). -/
+def mixStep (acc : DType) (y : PyVal) : Option DType := do
+  let u ← scalarDType y
+  match acc, u with
+  | .object, _ => some DType.object
+  | _, .object => some DType.object
+  | .str w, .str w' => some (.str (max w w'))
+  | .str _, _ => none
+  | _, .str _ => none
+  | a, b => some (if a.rank ≤ b.rank then b else a)
+
+/-- `numpy.array(list).dtype` for a list mixing numeric classes (`[2, 2.0]` → float, `[True, 1]` → int,
+`[1, None]` → object); on one-kind lists it is `arrayDType`. -/
+def mixDType : List PyVal → Option DType
+  | [] => some .float
+  | x :: xs => do
+    let t ← scalarDType x
+    xs.foldlM mixStep t
+
 /-- What `.tolist()` returns for a value stored into an array of the dtype (`none`: numpy
 raises, or a narrowing conversion that the repaired code never performs).  `i2f` is the
 conversion of an integer to a double. -/
@@ -276,6 +297,20 @@ def castInto (i2f : Int → UInt64) : DType → PyVal → Option PyVal
   | .bool, .bool b => some (.bool b)
   | .str w, .str s => if s.length ≤ w then some (.str s) else none
   | _, _ => none
+
+/-- `numpy.array(list)` over a list mixing classes: the common dtype and every element stored into it
+(`[2, 2.0]` → `[2.0, 2.0]`, `[True, 1]` → `[1, 1]`).  Every encoding does this somewhere: the dictionary and
+sparse constructors over the whole input, the run-length constructor over the run values. -/
+def unify (i2f : Int → UInt64) (xs : List PyVal) : Option (DType × List PyVal) := do
+  let rt ← mixDType xs
+  let ys ← xs.mapM (castInto i2f rt)
+  pure (rt, ys)
+
+/-- The integers inside a value: the integer itself, `0` / `1` for a boolean (what numpy converts it through). -/
+def intOf : PyVal → Option Int
+  | .int i => some i
+  | .bool b => some (if b then 1 else 0)
+  | _ => none
 
 /-- A value of the kind an array of dtype `t` holds natively. -/
 def holds : DType → PyVal → Bool
